@@ -42,11 +42,11 @@ def cap_term(ex, st, v):
     raise NotEncoded(f'capability set {v!r}')
 
 
-def control_node(ctx, label, build, nkids, spec, battery, kidkinds=None, extra=None, accept_when=None, why=None):
+def control_node(ctx, label, build, nkids, spec, battery, kidkinds=None, extra=None, accept_when=None, why=None, fname='typecheck'):
     """spec(kinds, okc, CL, PRIOR) -> dict(evaluated=[bool per child: can be evaluated given the guard kinds], capin=[z3 upper bound per child], capout=z3 upper bound,
     values=set of possible boolean value kinds or ('child', i) / ('lub',))"""
     P = ctx.prog('core')
-    f = P.method(FILE, 'typecheck', nargs=4)
+    f = P.method(FILE, fname, nargs=4)
     ctx.use(f)
     names = {'ExtCmp': Opaque('ast::name::Name', 'a comparable extension type (datetime)'), 'ExtOther': Opaque('ast::name::Name', 'another extension type')}
     kids = [Opaque('ast::expr::Expr', f'child{i}') for i in range(nkids)]
@@ -65,6 +65,11 @@ def control_node(ctx, label, build, nkids, spec, battery, kidkinds=None, extra=N
     kidx = {k.id: i for i, k in enumerate(kids)}
     gid = lambda ex_, st, v: getattr(strip(ex_, st, v), 'id', None)
     LUBTY = Agg('variant', TY, 'ExtensionType', [Opaque('ast::name::Name', 'the least upper bound of the branch types')], ('name',))
+
+    # harness-specific stubs first: the first registered matching stub wins
+    env = {'K': K, 'OKC': OKC, 'CL': CL, 'PRIOR': PRIOR, 'names': names, 'gid': gid, 'kids': kids, 'kidx': kidx, 'pre': pre, 'ctx': ctx}
+    if extra:
+        extra(ex, env)
 
     def typecheck(ex_, st, c, A):
         i = kidx.get(gid(ex_, st, A[2]))
@@ -124,9 +129,6 @@ def control_node(ctx, label, build, nkids, spec, battery, kidkinds=None, extra=N
     ex.stub(r'CapabilitySet<.*> as Clone>::clone$', lambda ex_, st, c, A: strip(ex_, st, A[0]), 'CapabilitySet::clone')
     ex.stub(r'PolicyID as Clone>::clone$', lambda ex_, st, c, A: Opaque('PolicyID', 'policy id'), 'PolicyID::clone')
     ex.stub(r'(name::)?Name as PartialEq>::(eq|ne)$', lambda ex_, st, c, A: BoolV(z3.BoolVal((gid(ex_, st, A[0]) == gid(ex_, st, A[1])) == c.endswith('::eq'))), 'Name equality (distinct opaque names differ)')
-    env = {'K': K, 'OKC': OKC, 'CL': CL, 'PRIOR': PRIOR, 'names': names, 'gid': gid, 'kids': kids, 'kidx': kidx, 'pre': pre, 'ctx': ctx}
-    if extra:
-        extra(ex, env)
     C.install(ex)
     heap = {'TC': Opaque('validator::typecheck::SingleEnvTypechecker', 'the typechecker'), 'CAP': cap(PRIOR), 'THIS': this, 'ERRS': Opaque('Vec<ValidationError>', 'type errors so far')}
     outs = ex.run(f, [Ref(0, ('local', 'TC')), Ref(0, ('local', 'CAP')), Ref(0, ('local', 'THIS')), Ref(0, ('local', 'ERRS'))], heap=heap, pre=pre)
@@ -172,8 +174,9 @@ def control_node(ctx, label, build, nkids, spec, battery, kidkinds=None, extra=N
         elif v.variant == 'TypecheckFail':
             rej.append(pc)
             # rejected although every child that was typechecked was accepted, and nothing reported
-            silent.append(z3.And(pc, z3.And([OKC[i] for i in visited] or [T]), z3.BoolVal(o.st.notes.get('errors', 0) == 0)))
-    role = f'validator/typecheck.rs: typecheck ({label})'
+            # (a child of the bottom type is exempt: no expression has type Never under strict validation)
+            silent.append(z3.And(pc, z3.And([OKC[i] for i in visited] or [T]), z3.And([K[i] != KINDS.index('Never') for i in visited] or [T]), z3.BoolVal(o.st.notes.get('errors', 0) == 0)))
+    role = f'validator/typecheck.rs: {fname} ({label})'
     why = why or f'the typing rule of {label} skips a branch that can be evaluated, hands a capability to the wrong branch, or gives the node the wrong type / capability'
     rep = lambda m: battery(ctx, nm, role, why)
     q = lambda xs: pre + [z3.Or(xs) if xs else F]
